@@ -27,15 +27,15 @@ def collect(ctx, gen, n, config='default', limit=3000):
     # keep the order (USK/MPK lines are checked against the last MSK before them) but cap the volume
     return lines[:limit]
 
-def tracing(ctx, gen, n):
-    lines = collect(ctx, gen, n)
-    out, r = vf.run_lines(vf.harness_bin('objtool'), lines, timeout=1800)
+def tracing(ctx, gen, n, config='default'):
+    lines = collect(ctx, gen, n, config)
+    out, r = vf.run_lines(vf.harness_bin('objtool', config), lines, timeout=1800)
     bad = [(l.split(' ')[0], o) for l, o in zip(lines, out) if not o.endswith('|ok')]
     ctx.evaluations += len(lines)
-    ctx.ob('correspondence', f'tracing relation on {len(lines)} serialized objects (sum a_i t_i = s for every recorded id and every user key, P_i = t_i G, tracing points of user/public keys = tracers, pk = sk (s G))',
+    ctx.ob('correspondence', f'[{config}] tracing relation on {len(lines)} serialized objects (sum a_i t_i = s for every recorded id and every user key, P_i = t_i G, tracing points of user/public keys = tracers, pk = sk (s G))',
            len(out) == len(lines) and not bad, '' if not bad else f'{len(bad)} objects fail, first: {bad[0][0]} {bad[0][1][-200:]}')
     if bad:
-        vf.violation(ctx, 'tracing relation / registration violated on a serialized object: ' + bad[0][1].split('|')[-1], {'object_kind': bad[0][0], 'detail': bad[0][1][-400:]})
+        vf.violation(ctx, 'tracing relation / registration violated on a serialized object: ' + bad[0][1].split('|')[-1], {'config': config, 'object_kind': bad[0][0], 'detail': bad[0][1][-400:]})
     ctx.count('tracing_objects', len(lines))
 
 def wire(ctx, gen, n, config='default'):
